@@ -204,9 +204,19 @@ fn test_async(c: &ConnCase) -> TestResult {
 
 fn async_strategy() -> BoxedStrategy<ConnCase> {
     let abort = (any::<u16>(), prop_oneof![3 => Just(0u16), 1 => 1u16..=24], prop_oneof![3 => Just(0u8), 1 => any::<u8>()]).prop_map(|(after, body_len, pad)| AbortSpec { after, body_len, pad });
-    (conn::conn_case(3, false, Just(false).boxed()), proptest::collection::vec(prop::option::weighted(0.7, abort), 3))
+    (conn::conn_case(3, false, Just(false).boxed()), proptest::collection::vec((prop::option::weighted(0.7, abort), any::<u8>()), 3))
         .prop_map(|(mut c, aborts)| {
-            for (q, a) in c.reqs.iter_mut().zip(aborts) {
+            for (q, (a, bias)) in c.reqs.iter_mut().zip(aborts) {
+                if a.is_some() {
+                    // make the interesting shape frequent: a handler that is reading when the
+                    // abort arrives, on a connection that is to be reused
+                    if bias % 5 < 3 {
+                        q.handler.insert(0, crate::aio::HOp::ReadToEnd { cap: 1 + (bias as u16 % 200) });
+                    }
+                    if bias % 4 != 0 {
+                        q.pre.flags |= 1;
+                    }
+                }
                 q.abort = a;
             }
             c
